@@ -746,7 +746,19 @@ impl<'a> Ctx<'a> {
                 let b = self.gen_operand(depth - 1, "tuple-index-base");
                 match b {
                     Expr::TupleIndex(..) | Expr::Int(_) | Expr::Float(_) => self.var_use(site),
-                    b => Expr::TupleIndex(Box::new(b), self.r.below(3) as u32),
+                    b => {
+                        let ti = Expr::TupleIndex(Box::new(b), self.r.below(3) as u32);
+                        // the index as an inner link of a postfix chain: `x.0.name`, `x.1(a)`
+                        match self.r.below(4) {
+                            0 => Expr::Field(Box::new(ti), Ident { text: (*self.r.pick(&["name", "with", "size"])).to_string(), bind: Bind::Plain, site: "field-access-untyped" }),
+                            1 => {
+                                let n = self.r.below(3);
+                                let args = (0..n).map(|_| Arg { label: None, value: self.gen_expr(depth.saturating_sub(1), "arg") }).collect();
+                                Expr::Call(Box::new(ti), args)
+                            }
+                            _ => ti,
+                        }
+                    }
                 }
             }
             28 if self.cfg.non_core => {
@@ -1117,9 +1129,13 @@ pub fn normalise(e: &mut Expr) {
                 normalise(&mut a.value);
             }
         }
-        Expr::Field(b, _) | Expr::TupleIndex(b, _) => {
+        Expr::Field(..) | Expr::TupleIndex(..) => {
+            let is_index = matches!(e, Expr::TupleIndex(..));
+            let (Expr::Field(b, _) | Expr::TupleIndex(b, _)) = e else { unreachable!() };
             normalise(b);
-            let bad_lit = matches!(**b, Expr::Int(_) | Expr::Float(_)) || matches!(**b, Expr::TupleIndex(..));
+            // `x.0.1` lexes `0.1` as a float (unsupported, documented); `x.0.name` is fine and
+            // must stay a plain postfix chain (the index must not be read as `0.`)
+            let bad_lit = matches!(**b, Expr::Int(_) | Expr::Float(_)) || (is_index && matches!(**b, Expr::TupleIndex(..)));
             if !is_postfix_base_ok(b) || bad_lit {
                 let inner = std::mem::replace(&mut **b, Expr::Int("0".into()));
                 **b = wrap(inner);
